@@ -53,6 +53,8 @@ import json
 import math
 import operator
 import random
+import signal
+import threading
 import time
 import warnings
 
@@ -653,6 +655,41 @@ def make_source(F, cfg, tag):
     return action, Ref(dims, coords, big)
 
 
+class _CaseTimeout(Exception):
+    pass
+
+
+class _time_limit:
+    """Per-case watchdog (a changed tree may loop for ever); no-op off the main thread or when somebody else owns the timer."""
+
+    def __init__(self, seconds):
+        self.seconds = seconds
+        self.armed = False
+
+    def __enter__(self):
+        try:
+            if threading.current_thread() is threading.main_thread() and signal.getitimer(signal.ITIMER_REAL)[0] == 0.0:
+                self.old = signal.signal(signal.SIGALRM, self._fire)
+                signal.setitimer(signal.ITIMER_REAL, self.seconds)
+                self.armed = True
+        except (ValueError, OSError, AttributeError):
+            self.armed = False
+        return self
+
+    @staticmethod
+    def _fire(signum, frame):
+        raise _CaseTimeout()
+
+    def __exit__(self, *exc):
+        if self.armed:
+            signal.setitimer(signal.ITIMER_REAL, 0)
+            signal.signal(signal.SIGALRM, self.old)
+        return False
+
+
+CASE_SECONDS = 20.0
+
+
 class Stats:
     def __init__(self, src_desc):
         self.cases = 0
@@ -700,9 +737,13 @@ def step(F, nodes, R, op, prog, stats, cache, evaluate_it=True):
         inrange = not bool(np.any(np.isinf(exp.big))) and exp.scale <= RANGE
     a = F.Action(nodes.copy(deep=False))
     try:
-        res = op.apply(a)
+        with _time_limit(CASE_SECONDS):
+            res = op.apply(a)
+    except _CaseTimeout:
+        stats.fail("C13/build-raises", klass, prog, f"the fluent call did not return within {CASE_SECONDS} s", CL_VALUE)
+        return None
     except Exception as e:  # noqa
-        stats.fail("C13/build-raises", klass, prog, f"{type(e).__name__}: {e}", CL_DIMS)
+        stats.fail("C13/build-raises", klass, prog, f"{type(e).__name__}: {e}", CL_VALUE)
         return None
     rn = res.nodes
     rdims = tuple(str(d) for d in rn.dims)
@@ -734,8 +775,11 @@ def step(F, nodes, R, op, prog, stats, cache, evaluate_it=True):
         try:
             with warnings.catch_warnings():
                 warnings.simplefilter("ignore")
-                with np.errstate(all="ignore"):
+                with np.errstate(all="ignore"), _time_limit(CASE_SECONDS):
                     got = evaluate(res, cache, F)
+        except _CaseTimeout:
+            stats.fail("C13/eval-raises", klass, prog, f"evaluation of the graph did not finish within {CASE_SECONDS} s", CL_VALUE)
+            return None
         except Exception as e:  # noqa
             stats.fail("C13/eval-raises", klass, prog, f"{type(e).__name__}: {e}", CL_VALUE)
             return None
@@ -858,12 +902,15 @@ def run_random(out, F, seed, nprog, depths, sizes, deadline):
                 break
             op = rng.choice(ops)
             prog = prog + [op.desc]
+            key = json.dumps([st.src_desc, prog], sort_keys=True, default=str)
+            before = st.nontrivial
             res = step(F, nodes, R, op, prog, st, cache, evaluate_it=True)
+            if key in st.keys:
+                st.nontrivial = before       # a prefix shared with an earlier random program: executed again, counted once
+            st.keys.add(key)
             if res is None:
                 break
             nodes, R = res
-        key = json.dumps([st.src_desc, prog], sort_keys=True, default=str)
-        st.keys.add(key)
         if len(st.samples) < 2 and len(prog) >= 3:
             st.samples.append({"source": st.src_desc, "program": prog})
         done += 1
@@ -871,7 +918,7 @@ def run_random(out, F, seed, nprog, depths, sizes, deadline):
     b = (f"{done} random programs (random.Random(seed={seed})): node shape of 1-3 dims with sizes from {sizes} (<= 30 nodes), internal shape from "
          f"{ishapes}, plain or generator sources, length from {depths}, every step drawn uniformly from the FULL catalogue of the current state "
          f"(instances hitting a known defect only as last step); every prefix of a program is a compared case. Non-trivial rule as in the "
-         f"exhaustive spaces; `nontrivial` counts compared prefixes of distinct programs ({len(st.keys)} distinct programs). "
+         f"exhaustive spaces, counted once per distinct (source, program prefix) - {len(st.keys)} distinct ones were executed. "
          f"{st.skipped_range} case(s) left the numeric range; {st.nfail} failing case(s), by known class: {st.known or '{}'}.")
     out.add_bounded("C13 random fluent programs beyond the exhaustive bound", "seeded random", b, st.cases, st.nontrivial, time.time() - t0,
                     st.samples, st.failures)
@@ -911,7 +958,8 @@ def run(out, tier, seed):
         single = [(n, i, P) for n in nshapes for i in ishapes] + [((3,), (2,), "gen"), ((2, 3), (3,), "gen"), ((2, 2, 3), (), "gen")]
         comp2 = [(((3,), (2,), P), "ff"), (((2, 3), (2,), P), "mf"), (((3,), (2, 2), P), "cf"), (((5,), (2,), P), "cf"), (((3, 2), (), P), "cf"),
                  (((2, 2, 3), (2,), P), "cf"), (((2, 3), (2,), "gen"), "cf")]
-        comp3 = [(((3,), (2,), P), "ccm"), (((2, 3), (2,), P), "ccm"), (((3, 2), (2, 2), P), "ccm"), (((2, 2, 3), (), P), "ccm")]
+        comp3 = [(((3,), (2,), P), "ccm"), (((2, 3), (2,), P), "ccm"), (((3, 2), (2, 2), P), "ccm"), (((2, 2, 3), (), P), "ccm"),
+                 (((5,), (2,), P), "ccm"), (((2, 3), (2,), "gen"), "ccm")]
 
     caps = f" Operations whose result would exceed {MAX_NODES} node positions / {MAX_NDIMS} node dimensions / {MAX_ELEMS} model elements are not generated."
     run_space(out, F, "C13 single fluent operations, all parameters", [(c, "f") for c in single],
